@@ -91,13 +91,13 @@ def exec (fn : String) (a1 : Option Int) (a2 : Option Val) (ign : Bool) (w : Win
   | "percent_rank" => some ((percentRank eqv p).map fun r => (r.1, .v (fracVal r.2)))
   | "ntile" => a1.bind fun n => (ntile n p).map natRes
   | "first_value" => some (valRes (firstValue cells ign w p))
-  | "last_value" => some (valRes (lastValue cells ign w p))
-  | "nth_value" => a1.bind fun n => (nthValue cells ign n w p).map valRes
+  | "last_value" => some (valRes (lastValueAt repoState cells ign w p))
+  | "nth_value" => a1.bind fun n => (nthValueAt repoState cells ign n w p).map valRes
   | "lag" => some (valRes (lag cells ign (a2.getD .null) (a1.getD 1) p))
   | "lead" => some (valRes (lead cells ign (a2.getD .null) (a1.getD 1) p))
-  | "cells" => aggOver cells (fun _ vs => Res.l vs) w p
-  | "count" => aggOver cells (fun _ vs => Res.v (.int (vs.filter (fun v => !isNullV v)).length)) w p
-  | "count_star" => aggOver cells (fun _ vs => Res.v (.int vs.length)) w p
+  | "cells" => aggOverAt repoState cells (fun _ vs => Res.l vs) w p
+  | "count" => aggOverAt repoState cells (fun _ vs => Res.v (.int (vs.filter (fun v => !isNullV v)).length)) w p
+  | "count_star" => aggOverAt repoState cells (fun _ vs => Res.v (.int vs.length)) w p
   | "listagg" => some (listAggOver cells (fun vs => Res.l (vs.filter (fun v => !isNullV v))) p)
   | _ => none
 
